@@ -4,6 +4,7 @@ import (
 	"fmt"
 	"go/token"
 	"go/types"
+	"sort"
 	"strings"
 
 	"golang.org/x/tools/go/ssa"
@@ -11,6 +12,7 @@ import (
 	"wtfverif/checker/internal/interval"
 	"wtfverif/checker/internal/load"
 	"wtfverif/checker/internal/maporder"
+	"wtfverif/checker/internal/modref"
 	"wtfverif/checker/internal/pathev"
 	"wtfverif/checker/internal/ssau"
 	"wtfverif/checker/internal/symx"
@@ -22,7 +24,7 @@ func init() {
 	register(&Rule{
 		Prop: "C06",
 		Explanation: "Every mechanism by which turning NLP on could lose what the user typed is decided from the SSA form for all queries: (O-1) in enhanceQueryWithNLP the returned term list is a prefix extension of the lexical term list — only append(terms, x) lies between parameter and result: no reslice, sort, element store or fresh slice; (O-2) the constant A guarding that append (len(terms) < A), the default term cap K and the protected-prefix size P satisfy A <= K, K >= 10, P >= 4, all located semantically; (O-3) in scoreTerms every iteration with i < preserveCount appends its term unless it left through the duplicate test; in filterAndSortTerms every original term is appended unconditionally before any enhanced term and only the enhanced loop is budgeted; selectTopTerms is the identity up to the cap; " +
-			"(O-4) GetEnhancedKeywords returns removeDuplicates(x) where the append chain building x starts with pq.Keywords, and removeDuplicates is the first-occurrence idiom (range in order, append on first sight, no sort); (O-5) nothing reachable from ProcessQuery / GetEnhancedKeywords depends on map iteration order, clocks, random sources or writable package-level state; (O-6) the NLP re-rank window is max(M*Limit, floor) with M >= 1 and is applied with a guarded reslice, so at Limit >= |db| it drops nothing. The set relation between NLP-on and NLP-off results as such is NOT decided.",
+			"(O-4) GetEnhancedKeywords returns removeDuplicates(x) where the append chain building x starts with pq.Keywords, and removeDuplicates is the first-occurrence idiom (range in order, append on first sight, no sort); (O-5) nothing reachable from ProcessQuery / GetEnhancedKeywords depends on map iteration order, clocks, random sources or writable package-level state, and the readers of a finished analysis (GetEnhancedKeywords and the ProcessedQuery methods the search code calls) write, append included, only to memory they allocated; (O-6) the NLP re-rank window is max(M*Limit, floor) with M >= 1 and is applied with a guarded reslice, so at Limit >= |db| it drops nothing. The set relation between NLP-on and NLP-off results as such is NOT decided.",
 		NotDecided:  []string{"result-set inclusion between NLP-on and NLP-off searches as a relation over all databases (follows from O-1..O-3 and C03 O-1, not decided directly)", "content of the word tables"},
 		Assumptions: []string{"append(s, x) keeps the elements of s in place"},
 		Run:         runC06,
@@ -83,7 +85,7 @@ func runC06(c *Ctx) {
 	r.Rule("O-2", "cap relation: append guard A <= default term cap K, K >= 10, protected prefix P >= 4")
 	r.Rule("O-3", "protected prefix: scoreTerms appends every term with i < preserveCount unless it is a duplicate; filterAndSortTerms appends every original term unconditionally before any enhanced term")
 	r.Rule("O-4", "keywords first, no duplicates: GetEnhancedKeywords = removeDuplicates(append chain starting with pq.Keywords); removeDuplicates keeps first occurrences in order")
-	r.Rule("O-5", "analysis is a function of the text: no order-sensitive map range, clock, random source or write to package-level state reachable from ProcessQuery / GetEnhancedKeywords")
+	r.Rule("O-5", "analysis is a function of the text: no order-sensitive map range, clock, random source or write to package-level state reachable from ProcessQuery / GetEnhancedKeywords; readers of the analysis write (store, append, sort, copy) only to memory of their own")
 	r.Rule("O-6", "re-rank window: candidate cut = max(M*Limit, floor) with M >= 1, applied by guarded reslice")
 
 	sx := symx.New(c.P.IsRepoFunc)
@@ -260,9 +262,55 @@ func reachAvoidBB(from, to *ssa.BasicBlock, cut map[[2]int]bool, barrier map[*ss
 	return false
 }
 
+// boolKnownOnEdge: the boolean v has a known value when control passes from
+// p to b: it is a constant; p branches on v itself (or on !v) and only one
+// side leads to b; or p lies wholly on one side of an earlier branch on v.
+func boolKnownOnEdge(v ssa.Value, p, b *ssa.BasicBlock) (val, known bool) {
+	if k, ok := v.(*ssa.Const); ok {
+		if k.Value == nil {
+			return false, false
+		}
+		return k.Value.String() == "true", true
+	}
+	side := func(d *ssa.BasicBlock) (cond ssa.Value, neg, ok bool) {
+		if len(d.Instrs) == 0 {
+			return nil, false, false
+		}
+		iff, isIf := d.Instrs[len(d.Instrs)-1].(*ssa.If)
+		if !isIf {
+			return nil, false, false
+		}
+		cond = iff.Cond
+		if u, isU := cond.(*ssa.UnOp); isU && u.Op == token.NOT {
+			cond, neg = u.X, true
+		}
+		return cond, neg, cond == v
+	}
+	if _, neg, ok := side(p); ok && len(p.Succs) == 2 && p.Succs[0] != p.Succs[1] {
+		if p.Succs[0] == b {
+			return !neg, true
+		}
+		if p.Succs[1] == b {
+			return neg, true
+		}
+	}
+	for d := p.Idom(); d != nil; d = d.Idom() {
+		_, neg, ok := side(d)
+		if !ok || len(d.Succs) != 2 || d.Succs[0] == d.Succs[1] {
+			continue
+		}
+		for k, sc := range d.Succs {
+			if len(sc.Preds) == 1 && (sc == p || sc.Dominates(p)) {
+				return (k == 0) != neg, true
+			}
+		}
+	}
+	return false, false
+}
+
 // threadedSucc: block b ends in a branch on a boolean phi of b itself and the
-// value flowing in from pred is a constant: the index of the only successor
-// that can be taken (-1: unknown, both).
+// value flowing in from pred is known on that edge: the index of the only
+// successor that can be taken (-1: unknown, both).
 func threadedSucc(b, pred *ssa.BasicBlock) int {
 	if pred == nil || len(b.Instrs) == 0 {
 		return -1
@@ -283,11 +331,10 @@ func threadedSucc(b, pred *ssa.BasicBlock) int {
 		if p != pred || i >= len(phi.Edges) {
 			continue
 		}
-		k, isC := phi.Edges[i].(*ssa.Const)
-		if !isC || k.Value == nil {
+		val, known := boolKnownOnEdge(phi.Edges[i], p, b)
+		if !known {
 			return -1
 		}
-		val := k.Value.String() == "true"
 		if neg {
 			val = !val
 		}
@@ -704,6 +751,77 @@ func c06Pure(c *Ctx, sx *symx.Ctx) {
 		r.OK("O-5", "nlp#analysis-is-a-function-of-the-text", "", fmt.Sprintf("%d functions, %d map ranges: no order-sensitive effect, clock, random source, goroutine or write to package-level state", len(scope), nLoops))
 	}
 	r.Floor("O-5", "functions reachable from query analysis", len(scope), 20)
+	c06ReadersDoNotWrite(c)
+}
+
+// c06ReadersDoNotWrite: the accessors that read a finished analysis
+// (GetEnhancedKeywords and every ProcessedQuery method the search code calls)
+// write only memory they allocate themselves. An append counts as a write to
+// its first operand: appending to a sub-slice of one of the analysis' own
+// lists overwrites the elements behind it, so the next reader sees another
+// analysis than the one ProcessQuery produced.
+func c06ReadersDoNotWrite(c *Ctx) {
+	r := c.R
+	var entries []*ssa.Function
+	seen := map[*ssa.Function]bool{}
+	if fn := c.P.Func("internal/nlp", "ProcessedQuery", "GetEnhancedKeywords"); fn != nil {
+		entries = append(entries, fn)
+		seen[fn] = true
+	}
+	for _, fn := range shippedFuncs(c) {
+		if fn.Pkg == nil || !strings.HasSuffix(fn.Pkg.Pkg.Path(), "internal/database") {
+			continue
+		}
+		ssau.ForEachInstr(fn, true, func(in ssa.Instruction) {
+			call := ssau.AsCall(in)
+			if call == nil {
+				return
+			}
+			g := call.Common().StaticCallee()
+			if g == nil || seen[g] || g.Signature.Recv() == nil || g.Blocks == nil {
+				return
+			}
+			if ssau.NamedOf(g.Signature.Recv().Type()) == nlpPkg+".ProcessedQuery" {
+				seen[g] = true
+				entries = append(entries, g)
+			}
+		})
+	}
+	if len(entries) == 0 {
+		return
+	}
+	mr := modref.New(entries, c.P.IsRepoFunc, nil)
+	ws := mr.Writes()
+	type agg struct {
+		n   int
+		bad *modref.Write
+	}
+	per := map[string]*agg{}
+	var keys []string
+	for i := range ws {
+		w := &ws[i]
+		k := load.FuncKey(w.Fn) + "#reader-writes:" + w.Kind
+		g := per[k]
+		if g == nil {
+			g = &agg{}
+			per[k] = g
+			keys = append(keys, k)
+		}
+		g.n++
+		if w.Shared && g.bad == nil {
+			g.bad = w
+		}
+	}
+	sort.Strings(keys)
+	for _, k := range keys {
+		g := per[k]
+		if g.bad != nil {
+			r.Bad("O-5", k, c.P.Pos(g.bad.Instr.Pos()), "reading the analysis changes it (a later reader sees another analysis than the one computed from the text): "+g.bad.Why)
+		} else {
+			r.OK("O-5", k, "", fmt.Sprintf("%d write site(s), all to memory the reader allocated", g.n))
+		}
+	}
+	r.Floor("O-5", "write sites in readers of the analysis", len(ws), 10)
 }
 
 func c06Window(c *Ctx, sx *symx.Ctx) {
@@ -753,6 +871,27 @@ func c06Window(c *Ctx, sx *symx.Ctx) {
 			bad = f.Plain(hi)
 		}
 	})
+	// ... or the cut is made by a prefix helper given the window
+	type helperCut struct {
+		call    *ssa.Call
+		guarded bool
+	}
+	var hcuts []helperCut
+	ssau.ForEachInstr(fn, false, func(in ssa.Instruction) {
+		call, ok := in.(*ssa.Call)
+		if !ok || !srSlice(call.Type()) {
+			return
+		}
+		list, win, guarded := ssau.PrefixHelperWindow(call)
+		if list == nil || !srSlice(list.Type()) {
+			return
+		}
+		nCuts++
+		hcuts = append(hcuts, helperCut{call, guarded})
+		if !c06AtLeastLimit(c, win, nil, 0) {
+			bad = f.Plain(win)
+		}
+	})
 	r.Check(nCuts > 0 && bad == "", "O-6", fk+"#window-multiplier", c.P.Pos(fn.Pos()), "every cut keeps at least Limit candidates (Limit times a constant >= 1, raised by floors)", "the re-rank window "+bad+" is not shown to be at least the requested limit: candidates within the requested limit can be cut before re-ranking")
 	// every reslice of the candidate list is guarded
 	n := 0
@@ -779,6 +918,10 @@ func c06Window(c *Ctx, sx *symx.Ctx) {
 		}
 		r.Check(len(cut) > 0 && !ssau.ReachableAvoidingEdges(fn, sl.Block(), cut), "O-6", fmt.Sprintf("%s#window-cut-%d-guarded", fk, n), c.P.Pos(sl.Pos()), "the cut happens only when the list is longer than the window", "the candidate list is resliced without the guard len(list) > window")
 	})
+	for _, hc := range hcuts {
+		n++
+		r.Check(hc.guarded, "O-6", fmt.Sprintf("%s#window-cut-%d-guarded", fk, n), c.P.Pos(hc.call.Pos()), "cut by a helper that reslices only where the list is longer than the window", "the helper that cuts the candidate list reslices without the guard len(list) > window")
+	}
 	r.Floor("O-6", "candidate cuts", n, 1)
 }
 
